@@ -899,3 +899,32 @@ cfg("Directory(exists=True)", lambda: Directory(exists=True),
     kind="Directory")
 
 NAMES = list(CONFIGS)
+
+TRIPLE_MEMBERS = [
+    "Int", "Float", "Str", "Bool", "CInt", "Range(0.0,2.0,xl=0,xh=1)",
+    "Enum(1, 2, 3)", "Tuple(Int,Str)", "Instance(A,allow_none=False)",
+    "Supports(IFoo,allow_none=False)", "Callable(allow_none=False)",
+    "String(min=1,max=2,re='a+')", "List(Int)",
+]
+_TRIPLES_ADDED = False
+
+
+def add_triples():
+    """thorough tier: every ordered triple of 13 members as Either"""
+    global _TRIPLES_ADDED
+    if _TRIPLES_ADDED:
+        return
+    _TRIPLES_ADDED = True
+    import itertools
+    for a, b, c in itertools.permutations(TRIPLE_MEMBERS, 3):
+        ca, cb, cc = CONFIGS[a], CONFIGS[b], CONFIGS[c]
+        name = "Either(%s|%s|%s)" % (a, b, c)
+        if name in CONFIGS:
+            continue
+        cfg(name, lambda ca=ca, cb=cb, cc=cc: Either(ca.make(), cb.make(),
+                                                     cc.make()),
+            lambda s, ca=ca, cb=cb, cc=cc: safe(ca.dom, s) or safe(cb.dom, s)
+            or safe(cc.dom, s), None, ca.good, kind="Either3",
+            skip=ca.skip | cb.skip | cc.skip)
+        COMPOUND_MEMBERS[name] = [a, b, c]
+        NAMES.append(name)
